@@ -167,6 +167,7 @@ def tlc(
             "java",
             "-XX:+UseSerialGC" if str(workers) == "1" else "-XX:+UseParallelGC",
             "-Xmx8g",
+            "-Xss512m",
             "-cp",
             JAVA_CP,
             "tlc2.TLC",
@@ -199,7 +200,12 @@ def tlc(
             raise TLCError(f"TLC timeout after {timeout}s on {module}/{cfg}") from ex
     r = TLCResult(p.stdout + p.stderr, p.returncode, time.time() - t0)
     if check and not r.ok:
-        sys.stderr.write(r.out[-6000:])
+        lines = r.out.splitlines()
+        for i, l in enumerate(lines):
+            if l.startswith("Error:") or "Exception" in l:
+                sys.stderr.write("\n".join(lines[i : i + 12]) + "\n---\n")
+                break
+        sys.stderr.write(r.out[-1500:])
         raise TLCError(f"TLC did not complete cleanly on {module}/{cfg} (rc={p.returncode})")
     return r
 
